@@ -19,16 +19,7 @@ struct PkItem { ustr orig, norm; MValue m; };
 struct Pk { cif_packet_tp *p; std::vector<PkItem> items; };
 struct Target { cif_value_tp *v; MValue *m; bool is_root; int root; };
 
-static bool valid_number(const ustr &t) {
-    size_t i = 0, n = t.size();
-    if (i < n && (t[i] == '+' || t[i] == '-')) ++i;
-    size_t d0 = i; while (i < n && t[i] >= '0' && t[i] <= '9') ++i; size_t nd = i - d0;
-    if (i < n && t[i] == '.') { ++i; size_t f0 = i; while (i < n && t[i] >= '0' && t[i] <= '9') ++i; nd += i - f0; }
-    if (nd == 0) return false;
-    if (i < n && (t[i] == 'e' || t[i] == 'E')) { ++i; if (i < n && (t[i] == '+' || t[i] == '-')) ++i; size_t e0 = i; while (i < n && t[i] >= '0' && t[i] <= '9') ++i; if (i == e0) return false; }
-    if (i < n && t[i] == '(') { ++i; size_t s0 = i; while (i < n && t[i] >= '0' && t[i] <= '9') ++i; if (i == s0 || i >= n || t[i] != ')') return false; ++i; }
-    return i == n;
-}
+static bool valid_number(const ustr &t) { return valid_cif_number(t); }
 
 struct VRun {
     RunSpec spec; std::string prop; bool leak_check = true;
